@@ -264,6 +264,9 @@ func expectedTargets(ai *am.Inst, af *am.Fun, f *ir.Func) []*ir.Block {
 		idx[b] = i
 	}
 	var out []*ir.Block
+	for _, hb := range ai.Handlers { // catchswitch: handlers first, then the unwind target
+		out = append(out, f.Blocks[idx[hb]])
+	}
 	for _, tb := range ai.Targets {
 		out = append(out, f.Blocks[idx[tb]])
 	}
